@@ -151,6 +151,8 @@ func c02Concrete(kind string, c c02Content) map[string]any {
 			o["{$request.body#/u}"].(map[string]any)["post"].(map[string]any)["requestBody"] = r
 		case "callbacks:post.responses":
 			o["{$request.body#/u}"].(map[string]any)["post"].(map[string]any)["responses"] = map[string]any{"200": r}
+		case "callbacks:post.callbacks":
+			o["{$request.body#/u}"].(map[string]any)["post"].(map[string]any)["callbacks"] = map[string]any{"again": r}
 		case "callbacks:parameters":
 			o["{$request.body#/u}"].(map[string]any)["parameters"] = []any{r}
 		default:
